@@ -294,6 +294,8 @@ func c19E2E(env *fw.Env) {
 				add(c19Case{Scenario: "alive-not-answering", Active: (thr+rep)%2 == 0, Threshold: thr, Suppress: false})
 			}
 		}
+		add(c19Case{Scenario: "rejected-probe-then-dead", Active: rep%2 == 0, Threshold: 2, Suppress: true})
+		add(c19Case{Scenario: "rejected-probe-then-dead", Active: rep%2 == 1, Threshold: 1 + rep%2, Suppress: false})
 		add(c19Case{Scenario: "dead-after-slow-reply", Active: rep%2 == 0, Threshold: 1 + rep%2, Suppress: true})
 		add(c19Case{Scenario: "dead-after-slow-reply", Active: rep%2 == 1, Threshold: 2 - rep%2, Suppress: true})
 		add(c19Case{Scenario: "chatty", Active: rep%2 == 0, Threshold: 2, Suppress: true})
@@ -339,6 +341,7 @@ func c19One(env *fw.Env, cs c19Case) {
 	var answers atomic.Int64
 	var mode atomic.Int32 // 0 answer, 1 silent, 2 answer with a data frame instead
 	var dataSeq atomic.Uint32
+	var rejectedOnce atomic.Bool
 	onFrame := func(c *peer.Conn, f peer.Frame) bool {
 		if f.PType == 0 && f.SType == peer.STLinktestReq {
 			probes.Add(1)
@@ -351,6 +354,10 @@ func c19One(env *fw.Env, cs c19Case) {
 				_ = c.Send(peer.Data(1, 1, false, 0x1234, 0x19190000|dataSeq.Add(1), nil))
 			case 3: // life = the peer's OWN Linktest.req, which the library answers: a frame of ours leaves after the life was seen
 				_ = c.Send(peer.LinktestReq(0x19300000 | dataSeq.Add(1)))
+			case 5: // the first probe is REJECTED (a frame, i.e. life), every later one is ignored
+				if rejectedOnce.CompareAndSwap(false, true) {
+					_ = c.Send(peer.RejectReq(0xFFFF, peer.STLinktestReq, 1, f.Sys))
+				}
 			case 4: // life = a W-bit primary that the application answers from its handler
 				_ = c.Send(peer.Data(1, 3, true, 0x1234, 0x19400000|dataSeq.Add(1), nil))
 			}
@@ -563,6 +570,25 @@ func c19One(env *fw.Env, cs c19Case) {
 			fail("chatty-peer-probed", fmt.Sprintf("suppression on: traffic every %v (max measured gap %v < interval %v) and still %d probes were sent", interval/4, maxGap, interval, n))
 		} else {
 			env.Event("chatty_zero_probes", 1)
+		}
+	case "rejected-probe-then-dead":
+		// the peer answers the first probe with a Reject.req (some peers do not implement linktest) and then dies: the
+		// probing must go on and drop the link after the threshold
+		mode.Store(5)
+		if !waitFor(10*time.Second, rejectedOnce.Load) {
+			env.Discard()
+			return
+		}
+		rejected := time.Now()
+		bound := time.Duration(cs.Threshold+1)*(interval+t6) + 3*time.Second
+		if !pc.WaitClosed(bound + 15*time.Second) {
+			fail("dead-peer-not-dropped-after-rejected-probe", fmt.Sprintf("suppression %v, threshold %d: the peer rejected the first Linktest.req and then went silent; %v later the link is still up and the peer has seen %d probes in all: the probing stopped", cs.Suppress, cs.Threshold, bound+15*time.Second, probes.Load()))
+			return
+		}
+		if el := time.Since(rejected); el > bound {
+			fail("dead-peer-dropped-late-after-rejected-probe", fmt.Sprintf("threshold %d: the link was dropped %v after the rejected probe; about (threshold+1) x (interval %v + T6 %v) is prescribed", cs.Threshold, el.Round(time.Millisecond), interval, t6))
+		} else {
+			env.Event("dead_peer_dropped_after_rejected_probe", 1)
 		}
 	case "dead-after-slow-reply":
 		// a transaction whose reply takes several intervals (the probe timer fires while the reply is outstanding and
